@@ -5,8 +5,10 @@ import (
 	"bytes"
 	"fmt"
 	"log/slog"
+	"runtime"
 	"strings"
 	"sync"
+	"sync/atomic"
 	"testing"
 
 	"github.com/whoisnian/glb/logger"
@@ -255,7 +257,13 @@ func TestConcurrentDerive(t *testing.T) {
 		if rapid.Bool().Draw(t, "deeper") {
 			parentChain = append(parentChain, lm.Step{Group: "grp"}, lm.Step{With: []lm.Node{lm.GenNode(genOpts, 1).Draw(t, "p1")}})
 		}
-		parent := lm.Derive(st.fresh(sink), parentChain)
+		// several parents with the same chain, each derived from for the first time by all goroutines at once (the
+		// goroutines meet at a barrier before every round): the first derivation from a handler is a moment of its own
+		rounds := rapid.SampledFrom([]int{1, 4, 16, 48}).Draw(t, "rounds")
+		parents := make([]*logger.Logger, rounds)
+		for r := range parents {
+			parents[r] = lm.Derive(st.fresh(sink), parentChain)
+		}
 		k := rapid.IntRange(2, 8).Draw(t, "goroutines")
 		type job struct {
 			step lm.Step
@@ -276,22 +284,33 @@ func TestConcurrentDerive(t *testing.T) {
 			}
 		}
 		var wg sync.WaitGroup
+		var arrived atomic.Int64
 		start := make(chan struct{})
 		for i := range jobs {
 			wg.Add(1)
 			go func(j job) {
 				defer wg.Done()
 				<-start
-				child := lm.Derive(parent, []lm.Step{j.step})
-				for _, r := range j.recs {
-					lm.Emit(child, r.form, r.level, r.msg, r.attrs)
+				for r, parent := range parents {
+					arrived.Add(1)
+					for spin := 0; arrived.Load() < int64((r+1)*k); spin++ {
+						if spin > 200 {
+							runtime.Gosched()
+						}
+					}
+					child := lm.Derive(parent, []lm.Step{j.step})
+					for _, rc := range j.recs {
+						lm.Emit(child, rc.form, rc.level, fmt.Sprintf("%s-r%d", rc.msg, r), rc.attrs)
+					}
 				}
 			}(jobs[i])
 		}
 		close(start)
 		wg.Wait()
-		// the parent itself must be unchanged as well
-		lm.Emit(parent, 2, logger.LevelInfo, "id-parent", nil)
+		// the parents themselves must be unchanged as well
+		for r, parent := range parents {
+			lm.Emit(parent, 2, logger.LevelInfo, fmt.Sprintf("id-parent-r%d", r), nil)
+		}
 		got := map[string][]byte{}
 		for _, w := range sink.Writes {
 			m := lm.MaskTime(st.kind, w)
@@ -315,15 +334,20 @@ func TestConcurrentDerive(t *testing.T) {
 				t.Fatalf("%s, record %s derived concurrently from a shared parent wrote\n  %s\nreplayed alone:\n  %s\nparent chain: %s", st, id, short(got[id]), short(want), lm.RenderChain(parentChain))
 			}
 		}
-		for _, j := range jobs {
-			for _, r := range j.recs {
-				check(r.msg, append(append([]lm.Step{}, parentChain...), j.step), r)
+		for r := range parents {
+			for _, j := range jobs {
+				for _, rc := range j.recs {
+					rc.msg = fmt.Sprintf("%s-r%d", rc.msg, r)
+					check(rc.msg, append(append([]lm.Step{}, parentChain...), j.step), rc)
+				}
 			}
+			id := fmt.Sprintf("id-parent-r%d", r)
+			check(id, parentChain, rec{level: logger.LevelInfo, msg: id, form: 2})
 		}
-		check("id-parent", parentChain, rec{level: logger.LevelInfo, msg: "id-parent", form: 2})
+		ev.LabelN("first_derivations_raced", int64(rounds))
 		ev.Label("concurrent:" + lm.HandlerNames[st.kind])
 		ev.Case(k >= 2, ev.Hash("conc", st.String(), lm.RenderChain(parentChain), fmt.Sprint(k), fmt.Sprint(len(sink.Writes))), func() string {
-			return fmt.Sprintf("%s: %d goroutines derive from parent %s and log %d records", st, k, lm.RenderChain(parentChain), len(sink.Writes)-1)
+			return fmt.Sprintf("%s: %d goroutines derive from each of %d parents %s at the same time and log %d records", st, k, rounds, lm.RenderChain(parentChain), len(sink.Writes)-rounds)
 		})
 	})
 }
